@@ -25,7 +25,7 @@ ASSUMPTIONS = [
     "CPython ast parses /repo's source as the interpreter would",
     "reference tables shared with C01/C02 (sa/rules/c01.py, c02.py, interp.py)",
 ]
-MIN_INSTANCES = {"R-05a": 1, "R-05b": 4, "R-05c": 1, "R-05d": 4, "R-05e": 3, "R-01b": 20, "R-02e": 6}
+MIN_INSTANCES = {"R-05f": 2, "R-05a": 1, "R-05b": 4, "R-05c": 1, "R-05d": 4, "R-05e": 3, "R-01b": 20, "R-02e": 6}
 
 
 def r05a(model, ctx):
@@ -268,8 +268,32 @@ def _only_pyeval(rule_fn, keep):
 _is_eval = lambda c: c.startswith("eval_value") or c.startswith("_eval_") or c.startswith("_PySignalState") \
     or c.startswith("_PyMemoryState")
 
+def r05f(model, ctx):
+    """the legacy generator testbench interface goes through the same context: a yielded value is read with get_value, a
+    yielded assignment writes the evaluated right-hand side, unchanged, with context.set"""
+    R = "R-05f"
+    CORO = "amaranth/sim/_pycoro.py"
+    fn = model.func(f"{CORO}::coro_wrapper.inner")
+    from ..engine.astutil import parent_map, dominating_conditions
+    pm = parent_map(fn)
+    sets = [c for c in ast.walk(fn) if isinstance(c, ast.Call) and unparse(c.func) == "context.set"]
+    need(len(sets) == 1, "coro_wrapper: the context.set(...) of a yielded assignment was not found")
+    c = sets[0]
+    conds = {(unparse(t), pol) for t, pol in dominating_conditions(pm, pm.get(c), fn)}
+    ok = [unparse(a) for a in c.args] == ["command.lhs", "context._engine.get_value(command.rhs)"] and not c.keywords and \
+        ("isinstance(command, Assign)", True) in conds
+    ctx.check(ok, R, "coro_wrapper:Assign", "context.set(command.lhs, get_value(command.rhs)) — the evaluated value, unchanged",
+              f"a yielded assignment must write the right-hand side's evaluated value unchanged (context.set extends it "
+              f"according to its sign): found {unparse(c)}; masking it to len(rhs) first zero-extends negative values", f"{CORO}:{c.lineno}")
+    gets = [s_ for s_ in ast.walk(fn) if isinstance(s_, ast.Assign) and unparse(s_.targets[0]) == "response" and
+            isinstance(s_.value, ast.Call) and unparse(s_.value.func) == "context._engine.get_value"]
+    ok = len(gets) == 1 and [unparse(a) for a in gets[0].value.args] == ["command"]
+    ctx.check(ok, R, "coro_wrapper:Value", "response = get_value(command)", "a yielded value must be answered with the engine's value "
+              "of that expression, unchanged", f"{CORO}:{fn.lineno}")
+
+
 RULES = [
-    ("R-05a", r05a), ("R-05b", r05b), ("R-05c", r05c), ("R-05d", r05d), ("R-05e", r05e),
+    ("R-05f", r05f), ("R-05a", r05a), ("R-05b", r05b), ("R-05c", r05c), ("R-05d", r05d), ("R-05e", r05e),
     ("R-01a", _only_pyeval(c01.r01a, _is_eval)), ("R-01b", _only_pyeval(c01.r01b, _is_eval)),
     ("R-01d", c01.r01d), ("R-01g", _only_pyeval(c01.r01g, _is_eval)), ("R-01h", _only_pyeval(c01.r01h, _is_eval)),
     ("R-02a", _only_pyeval(c02.r02a, _is_eval)), ("R-02e", _only_pyeval(c02.r02e, _is_eval)),
